@@ -3,8 +3,9 @@
 # independent sub-agents, each confirmed to keep the 200 baseline tests green) to a scratch copy of /repo and run ALL
 # registered checks on it. Any VIOLATION/UNDECIDED is a false alarm of the checker. Evidence of the real tree is untouched.
 glob="${1:-*}"
-/verif/run.sh setup >/dev/null 2>&1
-bin=$(mktemp /tmp/cloakcheck.XXXXXX); cp /verif/bin/cloakcheck "$bin"; chmod +x "$bin"
+# CHECKER_BIN=<path>: use that binary instead of rebuilding (e.g. while the sources are being edited)
+if [ -n "$CHECKER_BIN" ]; then src="$CHECKER_BIN"; else /verif/run.sh setup >/dev/null 2>&1; src=/verif/bin/cloakcheck; fi
+bin=$(mktemp /tmp/cloakcheck.XXXXXX); cp "$src" "$bin"; chmod +x "$bin"
 trap 'rm -f "$bin"' EXIT
 one() {
   n=$1; pd=/verif/refactors/$n/patch.diff
